@@ -385,13 +385,49 @@ func runC08(w *World, tier string) (bool, interface{}) {
 			_ = projectNode(v, r, true)
 		}
 		resetDir := v.StateDir + "_reset"
-		body, _ := json.Marshal(map[string]interface{}{"new_state_dbdsn": resetDir, "use_offset": true, "messages": []string{}})
+		// the operator may exclude messages from the replay (by offset): the state
+		// afterwards is the one of a node that never saw them
+		ignored := []string{}
+		var Lf []storage.Message
+		if w.Tape.Bool(1, 2, "resetWithIgnoreList") && len(L) > 3 {
+			k := 1 + w.Tape.Choose(3, "ignoreK")
+			skip := map[uint64]bool{}
+			var own []int // positions of the round's genuine messages
+			for i := range L {
+				if L[i].DkgRoundID == rounds[0] && w.Board.Injected[L[i].Offset] == nil {
+					own = append(own, i)
+				}
+			}
+			for len(skip) < k && len(own) > 0 {
+				j := w.Tape.Choose(len(own), "ignoreWhich")
+				i := own[j]
+				own = append(own[:j], own[j+1:]...)
+				skip[L[i].Offset] = true
+				ignored = append(ignored, fmt.Sprintf("%d", L[i].Offset))
+			}
+			for _, m := range L {
+				if !skip[m.Offset] {
+					Lf = append(Lf, m)
+				}
+			}
+			rn, _ := replayNode(w, v, Lf, "without-the-ignored-messages", false, false)
+			for _, r := range rounds {
+				before[r] = projectNode(rn, r, true)
+			}
+			w.stopNode(rn, false)
+			w.Stats.Fault("state-reset-with-ignore-list")
+		}
+		body, _ := json.Marshal(map[string]interface{}{"new_state_dbdsn": resetDir, "use_offset": true, "messages": ignored})
 		if rp := w.CallAPI(v, "reset", "POST", "/resetState", body); !rp.OK() {
 			w.Fail("C08", "reset-rejected", rp.ErrMsg)
 			return true, nil
 		}
 		w.Stats.Fault("state-reset")
-		for i := 0; i < 4*len(L)+20 && v.Offset() < uint64(len(L)); i++ {
+		target := uint64(len(L))
+		if len(Lf) > 0 {
+			target = Lf[len(Lf)-1].Offset + 1
+		}
+		for i := 0; i < 4*len(L)+20 && v.Offset() < target; i++ {
 			w.Advance(1e9)
 			if p := v.inc.Poller; p.Parked() != nil {
 				w.RunPollTick(p)
@@ -405,7 +441,7 @@ func runC08(w *World, tier string) (bool, interface{}) {
 		}
 		// ... and what the replay wrote into the new database is that state too: the
 		// process is restarted on the database the reset created
-		if !w.Failed() && v.Offset() >= uint64(len(L)) {
+		if !w.Failed() && v.Offset() >= target {
 			w.stopNode(v, true)
 			v.StateDir = resetDir
 			if err := w.RestartNode(v); err != nil {
